@@ -76,4 +76,12 @@ CLAIMED["C17"] = {
 }
 ENGINES[0]["serves_properties"] = ["C01", "C02", "C03", "C04", "C05", "C09", "C10", "C17"]
 ENGINES[1]["serves_properties"] = ["C11", "C16"]
+CLAIMED["C19"] = {
+    "engine": "seqspace+choicetree",
+    "technique": "bounded exhaustive exploration of circuit words x noise-model assignments against a numpy density-matrix reference; exhaustive enumeration of scripted cirq sampler answers, observing the mixed state handed to the sampler",
+    "text": "Every circuit of depth <= 2 (thorough 3) over a 10-gate alphabet with 1-, 2- and 3-qubit gates (controls, multi-controlled CNOT, CSWAP) is combined with every assignment of {none, 4 pauli, 4 depol, 8 pauli+depol in both insertion orders} to each gate name present and to an absent name. Checked against a numpy density-matrix evolution (pauli channel per touched qubit, joint depolarisation of all touched qubits): the translated cirq circuit run on cirq's density-matrix simulator, the state kept by the backend and the matrix handed to the sampler; frequencies from every scripted sample; zero rates equal the noiseless state; for expectation values (6 observables, n_shots 1-2) the mixed state handed to the sampler for each term after the noisy basis rotation and the estimate arithmetic for every sample sequence; 14 malformed specifications, noise on sympy and noise without shots must be rejected, 3 boundary-valid ones accepted.",
+    "note": "Trusted: mc/ref/density.py (self-tested: trace preservation, 1-qubit depol == pauli(q/4,q/4,q/4), partial-trace form). Not covered: rates outside the alphabets, > 3 qubits, depth > 3, n_shots > 2, noise combined with mid-circuit measurement.",
+}
+ENGINES[0]["serves_properties"] = ["C01", "C02", "C03", "C04", "C05", "C09", "C10", "C17", "C19"]
+ENGINES[2]["serves_properties"] = ["C01", "C02", "C10", "C19"]
 NOT_CLAIMED = {}
